@@ -210,6 +210,39 @@ def run_group(chk, g, seen):
                             return
 
 
+def reevaluation_chain(chk):
+    """a supplied member is CHANGED and the remembered values re-evaluated (what the solution loop does in every iteration): members that were read in
+    dependency order answer like those of a fresh object with the new value - after one call, and after a further one"""
+    from pyroll.core import Roll, Transport, Profile, CircularOvalGroove
+    g = lambda: CircularOvalGroove(depth=8e-3, r1=6e-3, r2=40e-3)      # noqa
+    chain = ('nominal_radius', 'surface_velocity', 'working_radius', 'working_velocity')
+    for d0, d1, n in ((0.32, 0.40, 1.5), (0.5, 0.25, 0.7)):
+        roll = Roll(g(), nominal_diameter=d0, rotational_frequency=n)
+        [getattr(roll, m) for m in chain]
+        [getattr(roll, m) for m in chain]
+        roll.nominal_diameter = d1
+        for call in (1, 2):
+            roll.reevaluate_cache()
+            fresh = Roll(g(), nominal_diameter=d1, rotational_frequency=n)
+            chk.cov['evaluations'] += 1
+            for m in chain:
+                a, b = float(getattr(roll, m)), float(getattr(fresh, m))
+                if not math.isclose(a, b, rel_tol=1e-12):
+                    return chk.fail('reevaluate', f"roll with nominal_diameter={d0}, rotational_frequency={n}: {list(chain)} read, nominal_diameter changed to {d1}, "
+                                    f"reevaluate_cache() called {call} time(s): {m} = {a}, a fresh roll with the new diameter gives {b}",
+                                    {'group': 'roll radius / velocities', 'changed': 'nominal_diameter', 'from': d0, 'to': d1, 'calls': call})
+    t = Transport(length=6.0)
+    t.in_profile = Profile.round(radius=10e-3, velocity=3.0)
+    first = (float(t.velocity), float(t.duration))
+    t.in_profile.velocity = 4.0
+    t.in_profile.reevaluate_cache()
+    t.reevaluate_cache()
+    chk.cov['evaluations'] += 1
+    if first != (3.0, 2.0) or not math.isclose(float(t.velocity), 4.0, rel_tol=1e-12) or not math.isclose(float(t.duration) * float(t.velocity), 6.0, rel_tol=1e-12):
+        return chk.fail('reevaluate', f"transport of length 6 fed at velocity 3 (duration {first[1]}), then at velocity 4 and re-evaluated: velocity {float(t.velocity)}, "
+                        f"duration {float(t.duration)} - duration x velocity must be the length", {'group': 'transport length/duration', 'changed': 'in_profile.velocity'})
+
+
 def run(chk):
     _ta.generate(chk)
     for f in ('C16_proofs.v', 'C16.v'):
@@ -221,6 +254,8 @@ def run(chk):
     for rep in range(2 if not chk.thorough else 20):
         for g in groups(rng):
             run_group(chk, g, seen)
+    if not chk.failures:
+        reevaluation_chain(chk)
     chk.cov['distinct_nontrivial'] += len(seen)
     chk.cov['exhaustive'] = True
     chk.sample({'group': 'transport length/duration (velocity given)', 'supplied': ['length'], 'order': ['duration', 'length']})
